@@ -154,6 +154,9 @@ pub struct DExtra<'a> {
     pub probe: bool,
     /// after this many deflate calls: deflateCopy, end the original, continue on the copy (0 = never)
     pub copy_after_call: usize,
+    /// after this many deflate calls: deflateReset and start over with the same input (the header set with
+    /// deflateSetHeader stays installed, as in zlib); the trace describes the stream written after the reset (0 = never)
+    pub reset_after_call: usize,
 }
 
 pub struct GzHold {
@@ -218,7 +221,7 @@ pub fn run_deflate<Zx: Z>(cfg: &DCfg, input: &[u8], sched: &DSched, env: &Env, e
         if t.init_ret != Z_OK {
             return Err(format!("{}: deflateInit2 returned {}", Zx::NAME, rc_name(t.init_ret)));
         }
-        let _gzhold;
+        let mut _gzhold = None;
         if let Some(f) = ex.gz {
             let mut h = make_gz_header(f);
             let r = Zx::deflateSetHeader(s.p(), &mut *h.head);
@@ -226,7 +229,7 @@ pub fn run_deflate<Zx: Z>(cfg: &DCfg, input: &[u8], sched: &DSched, env: &Env, e
                 Zx::deflateEnd(s.p());
                 return Err(format!("{}: deflateSetHeader returned {}", Zx::NAME, rc_name(r)));
             }
-            _gzhold = h;
+            _gzhold = Some(h);
         }
         let mut dict_in: u64 = 0;
         if let Some(d) = ex.dict {
@@ -275,6 +278,8 @@ pub fn run_deflate<Zx: Z>(cfg: &DCfg, input: &[u8], sched: &DSched, env: &Env, e
         // one deflate() call with `room` bytes of output; returns (ret, din, dout, avail_out_after)
         // rank of the previous deflate call's flush in zlib's order, -1 when that call ended with the output full
         let mut prev_rank: i32 = -1;
+        // set by the call macro when it has just reset the stream (DExtra::reset_after_call)
+        let mut just_reset = false;
         macro_rules! call_deflate {
             ($flush:expr, $room:expr) => {{
                 let room: usize = if $room == AMPLE { ample } else { $room };
@@ -325,6 +330,24 @@ pub fn run_deflate<Zx: Z>(cfg: &DCfg, input: &[u8], sched: &DSched, env: &Env, e
                 sum_in += din as u64;
                 sum_out += dout as u64;
                 t.calls.push(Call { op: 0, flush: $flush, ret, din: din as u32, dout: dout as u32 });
+                if ex.reset_after_call != 0 && ncalls == ex.reset_after_call && ret != Z_STREAM_END {
+                    let r = Zx::deflateReset(s.p());
+                    if r != Z_OK {
+                        Zx::deflateEnd(s.p());
+                        return Err(format!("{}: deflateReset after call {ncalls} returned {}", Zx::NAME, rc_name(r)));
+                    }
+                    t.out.clear();
+                    t.calls.clear();
+                    t.flush_points.clear();
+                    pos = 0;
+                    given = 0;
+                    sum_in = 0;
+                    sum_out = 0;
+                    dict_in = 0;
+                    prev_rank = -1;
+                    last_given = usize::MAX;
+                    just_reset = true;
+                }
                 if ex.copy_after_call != 0 && ncalls == ex.copy_after_call && ret != Z_STREAM_END {
                     let mut d = env.strm();
                     let r = Zx::deflateCopy(d.p(), s.p());
@@ -336,7 +359,11 @@ pub fn run_deflate<Zx: Z>(cfg: &DCfg, input: &[u8], sched: &DSched, env: &Env, e
                     s = d;
                 }
                 probe!();
-                (ret, din, dout, room - dout)
+                if just_reset {
+                    (Z_OK, 0, 0, 1)
+                } else {
+                    (ret, din, dout, room - dout)
+                }
             }};
         }
 
@@ -354,6 +381,10 @@ pub fn run_deflate<Zx: Z>(cfg: &DCfg, input: &[u8], sched: &DSched, env: &Env, e
                     let mut cur_room = *room;
                     loop {
                         let (ret, _din, _dout, left) = call_deflate!(*flush, cur_room);
+                        if just_reset {
+                            just_reset = false;
+                            break;
+                        }
                         if cur_room != AMPLE {
                             cur_room = cur_room.max(16);
                         }
@@ -433,6 +464,11 @@ pub fn run_deflate<Zx: Z>(cfg: &DCfg, input: &[u8], sched: &DSched, env: &Env, e
             let mut stalls = 0;
             loop {
                 let (ret, din, dout, _left) = call_deflate!(Z_FINISH, sched.tail_room);
+                if just_reset {
+                    just_reset = false;
+                    given = input.len();
+                    continue;
+                }
                 if ret == Z_STREAM_END {
                     break;
                 }
